@@ -25,6 +25,7 @@ ASSUMPTIONS = [
 ]
 ANCHOR_FILES = ("src/pydrobert/speech/filters.py",)
 EXHAUSTIVE_PARTS = []
+SUITE_TESTS = ['tests/test_filters.py', 'tests/test_compute.py']  # the repository's own tests as an extra monitored workload (thorough tier)
 LEVEL_TEXT = (
     "Every get_truncated_response call of the run (6e3 quick / 1.5e5 thorough driven triples plus those made by STFT computers under construction) is "
     "checked against the full response through the documented recipes, for odd/even and very small widths. Sampled exploration."
@@ -187,6 +188,10 @@ def plan(tier, seed):
 
 
 def run_shard(spec, rec):
+    if "suite" in spec:
+        from .. import suite
+
+        return suite.run(__name__.rsplit(".", 1)[-1], spec, rec)
     mon = Mon(rec)
     mon.attach()
     for i in range(spec["a"], spec["b"]):
